@@ -691,4 +691,8 @@ View == <<mem, snap, file, clock, dev, delat>>
 Emit_Corpus == PrintT(<<"CORPUS", ToJson([ops |-> ops, obs |-> Obs(mem), dev |-> dev])>>)
 NextCorpus == Emit_Corpus /\ Next
 SpecCorpus == Init /\ [][NextCorpus]_vars
+\* restart-focused corpus: only the states reached by a Reopen are emitted (histories ending in a restart)
+Emit_AfterReopen == (ops # <<>> /\ ops[Len(ops)].op = "Reopen") => Emit_Corpus
+NextCorpusR == Emit_AfterReopen /\ Next
+SpecCorpusR == Init /\ [][NextCorpusR]_vars
 =============================================================================
